@@ -105,4 +105,28 @@ mod verif_kani {
         kani::cover!(n < o);
         core::mem::forget(c);
     }
+
+    /// A `pop` that hands out nothing (queue not yet due) must not disturb the order of what is queued around it.
+    #[kani::proof]
+    #[kani::unwind(4)]
+    fn vk_u14_order_across_early_pop() {
+        let mut c = conditioner();
+        let o1: u8 = kani::any();
+        let o2: u8 = kani::any();
+        kani::assume(o1 > 0);
+        c.insert(None, base() + Duration::from_millis(o1 as u64), 1, Bytes::new());
+        assert!(c.pop(base()).is_none()); // nothing is due at time 0
+        c.insert(None, base() + Duration::from_millis(o2 as u64), 2, Bytes::new());
+        let v = c.heap.into_vec();
+        assert!(v.len() == 2);
+        let (a, b) = if v[0].channel_id == 1 { (&v[0], &v[1]) } else { (&v[1], &v[0]) };
+        let ab = a.cmp(b);
+        if o1 <= o2 {
+            assert!(ab == Ordering::Greater); // queued first, not later in time: still delivered first
+        } else {
+            assert!(ab == Ordering::Less);
+        }
+        kani::cover!(o1 == o2);
+        core::mem::forget(v);
+    }
 }
